@@ -862,8 +862,10 @@ class Evaluator:
         v = self.F.vars.get(e["v"])
         if v is None:
             raise Inconclusive("unknown global")
-        self.gvar_reads.add(v["id"])
-        return self.global_value(v, e)
+        r = self.global_value(v, e)
+        if not (isinstance(r, tuple) and r and r[0] == "table"):
+            self.gvar_reads.add(v["id"])      # tables: naming one (binding a reference to it) is not an access; see the map models
+        return r
 
     def global_value(self, v, e=None):
         name = v["name"]
@@ -946,6 +948,9 @@ class Evaluator:
                 return v
             if is_const(v) and (self.fold or _exact_in(v[1], tot)):
                 return v   # value-preserving conversion of an exactly representable constant
+            if isinstance(v, tuple) and v and v[0] == "cast" and len(v) > 3 and v[1] == frm and v[3] == tot \
+                    and _MANT.get(frm, 0) >= _MANT.get(tot, 99):
+                return v[2]   # T -> wider -> T is the identity (every T value is representable in the wider type)
             return ("cast", tot, v, frm)
         if ck == "IntegralToFloating":
             if isinstance(v, int):
@@ -1535,6 +1540,7 @@ class Evaluator:
             tv = self.load(this_lv)
             if not (isinstance(tv, tuple) and tv[0] == "table"):
                 raise Inconclusive("map operation on a non-table")
+            self.gvar_reads.add(tv[1])       # the table object itself is accessed (not merely referred to)
             if sn == "find":
                 return ("iter", tv[1], val(0))
             if sn in ("end", "cend"):
